@@ -47,6 +47,7 @@ type FuncContract struct {
 	StreamAssume map[int][]Clause
 	AscendInv    map[int][]Clause
 	AscendStep   map[int][]Clause
+	AscendExit   map[int][]Clause // proved in the state right after the Ascend, then assumed (a cut before control flow merges)
 	StreamStep   map[int]map[string][]Clause // per stream, per input trace (IN | INM | END): per-event transfer obligations
 	Flags        map[string]bool // pure, inline, trusted
 	Lets         []Clause        // ghost definitions evaluated at entry: let name: expr
@@ -255,7 +256,7 @@ func (cs *Contracts) parseFile(text string, pkg *types.Package, file string) (er
 		switch {
 		case strings.HasPrefix(l, "func "):
 			sel := strings.TrimSpace(l[5:])
-			cur = &FuncContract{Selector: sel, Pkg: pkg, File: file, LoopInv: map[int][]Clause{}, LoopDec: map[int]ast.Expr{}, LoopStep: map[int][]Clause{}, LoopAssume: map[int][]Clause{}, StreamInv: map[int][]Clause{}, StreamAssume: map[int][]Clause{}, StreamStep: map[int]map[string][]Clause{}, AscendInv: map[int][]Clause{}, AscendStep: map[int][]Clause{}, Flags: map[string]bool{}}
+			cur = &FuncContract{Selector: sel, Pkg: pkg, File: file, LoopInv: map[int][]Clause{}, LoopDec: map[int]ast.Expr{}, LoopStep: map[int][]Clause{}, LoopAssume: map[int][]Clause{}, StreamInv: map[int][]Clause{}, StreamAssume: map[int][]Clause{}, StreamStep: map[int]map[string][]Clause{}, AscendInv: map[int][]Clause{}, AscendStep: map[int][]Clause{}, AscendExit: map[int][]Clause{}, Flags: map[string]bool{}}
 			curLemma = nil
 			key := pkg.Path() + "|" + sel
 			if _, dup := cs.Funcs[key]; dup {
@@ -319,6 +320,8 @@ func (cs *Contracts) parseFile(text string, pkg *types.Package, file string) (er
 				cur.AscendInv[n] = append(cur.AscendInv[n], mkClause(strings.SplitN(l, "invariant", 2)[1]))
 			case "step":
 				cur.AscendStep[n] = append(cur.AscendStep[n], mkClause(strings.SplitN(l, " step ", 2)[1]))
+			case "exit":
+				cur.AscendExit[n] = append(cur.AscendExit[n], mkClause(strings.SplitN(l, " exit ", 2)[1]))
 			default:
 				panic("unknown ascend clause: " + l)
 			}
@@ -487,6 +490,15 @@ func (env *SpecEnv) lookupVar(name string) SV {
 	if found != nil {
 		if v, ok := env.st.cells[found]; ok {
 			return v
+		}
+		if found.Heap {
+			// the captured copy of a parameter does not exist yet in the state old() refers to (function entry): the
+			// parameter itself is its value there
+			for _, p := range env.fr.fn.Params {
+				if p.Name() == name && found.Pos() == p.Pos() {
+					return env.fr.regs[p]
+				}
+			}
 		}
 		return env.e.readLV(env.st, env.fr.regs[found].(*PtrV), found.Type().(*types.Pointer).Elem())
 	}
